@@ -18,7 +18,7 @@ TECHNIQUE = "property-based testing: generated generic signatures x argument tup
 RULE = (
     "a case = (type variable kind: plain / bound=A / constraints (int, str); a multiset of 1-4 bounds over the "
     "vocabulary {int,bool,str,float,A,B,object,None,int|str,Literal[1],list[int],list[bool]}, each a lower bound "
-    "(parameter T or list[T]) or an upper bound (parameter Callable[[T], None])). The helper `def h(...) -> tuple[T]` "
+    "(parameter T or list[T]) or an upper bound (parameter Callable[[T], None])). Besides the permutations, each helper has two twins with the same parameters whose return type (None, int) does not mention T; their verdict must agree. The helper `def h(...) -> tuple[T]` "
     "is emitted once per permutation of its parameters and called with matching arguments; oracle: same "
     "accepted/diagnosed verdict in every permutation; if accepted, the solution read from the inferred tuple type "
     "includes every lower bound, is included in every upper/declared bound and equals a constraint; an accepted "
@@ -142,6 +142,10 @@ def build_module(cases, max_perms=6):
         for pi, perm in enumerate(perms):
             params = ", ".join(param_decl(tv, bounds[i], i) for i in perm)
             lines.append(f"def h{ci}_{pi}({params}) -> tuple[{tv}]: ...")
+        # the same parameters with a return type that does not mention the type variable
+        params0 = ", ".join(param_decl(tv, bounds[i], i) for i in perms[0])
+        lines.append(f"def v{ci}({params0}) -> None: ...")
+        lines.append(f"def w{ci}({params0}) -> int: ...")
         plan.append(perms)
     params = ", ".join([f"p_{ident(t)}: {t}" for t in VOCAB] + [f"pl_{ident(t)}: list[{t}]" for t in VOCAB])
     lines.append(f"def caller({params}) -> None:")
@@ -155,6 +159,11 @@ def build_module(cases, max_perms=6):
         kw = ", ".join(f"a{i}={arg_expr(bounds[i])}" for i in reversed(range(len(bounds))))
         lines.append(f"    k{ci} = h{ci}_0({kw})")
         lmap[len(lines)] = (ci, 0, "kw")
+        args0 = ", ".join(arg_expr(bounds[i]) for i in plan[ci][0])
+        lines.append(f"    v{ci}({args0})")
+        lmap[len(lines)] = (ci, 0, "void")
+        lines.append(f"    w{ci}({args0})")
+        lmap[len(lines)] = (ci, 0, "int-return")
     return "\n".join(lines) + "\n", lmap
 
 
@@ -219,6 +228,10 @@ def _judge(kind, bounds, obs):
         if o["diagnosed"]:
             continue
         if o["sigma"] is None:
+            if o["style"] in ("void", "int-return") and not has_solution(kind, bounds):
+                fails.append((f"unsatisfiable-accepted|{kind}|{dirs}",
+                              f"{kind} T with bounds {fmt(bounds)}: no value satisfies them but the call is accepted "
+                              f"({o['style']} spelling: return type without the type variable)"))
             continue
         r = check_solution(kind, bounds, o["sigma"])
         if r is None:
